@@ -15,7 +15,9 @@ R-SIGN   abstract interpretation of `pi_from_theta` over the sign domain {ZERO, 
          the pseudo-inertia is its Gram matrix (U @ U.T or U.T @ U), the mass (first element of the returned
          vector) is a diagonal element of that Gram matrix; `cholesky_decompose_upper` conjugates
          np.linalg.cholesky by the same index reversal on input and output (so that the inverse map factors J
-         with the triangle and product order the forward map uses).
+         with the triangle and product order the forward map uses); the reversal is judged on the interpreted value
+         flow (a square matrix with a rows-reversed / columns-reversed state through locals, helpers, index arrays
+         n-1..0, `::-1` and np.flip), not on the spelling.
          Trusted theorem: U triangular with positive diagonal => U U^T positive definite => positive mass and the
          triangle inequalities of the rotational inertia.
 R-TABLE  slot maps: for every theta slot i, (inverse map o forward map)(theta)[i] simplifies symbolically to
@@ -838,6 +840,10 @@ class Interp:
         v = self.ev(e.value)
         if v.fields is not None and e.attr in v.fields:
             return v.fields[e.attr]
+        if v.kind == "sq" and e.attr == "shape":
+            return Val("sqshape", of=v, null=False, pair=U_)
+        if v.kind == "sq" and e.attr == "T":
+            return self.sq(v.of, v.block[1], v.block[0], v.line, like=v, t=not v.t)
         if e.attr == "T":
             if v.kind == "mat":
                 return Val("matT", of=v, shape=(v.shape[1], v.shape[0]), deps=v.deps, null=False)
@@ -860,6 +866,12 @@ class Interp:
             sb = b.shape if b.shape and len(b.shape) == 2 else None
             return Val("matprod", deps=deps, shape=(sa[0], sb[1]) if sa and sb else None, line=line, block="prod",
                        of=[a, b], null=False, pair=p_all_uniform([a, b]))
+        if a.kind == "sqdim" and isinstance(op, ast.Sub) and b.const == 1 and not isinstance(b.const, bool):
+            return Val("sqdim-1", shape=(), deps=deps, null=False, pair=U_)
+        if a.kind in ("sq", "sqeye") or b.kind in ("sq", "sqeye"):
+            r = self.sq_arith(op, a, b, line)
+            if r is not None:
+                return r
         if a.kind == "scalar" and b.kind == "scalar":
             ca = a.const if isinstance(a.const, (int, float)) and not isinstance(a.const, bool) else None
             cb = b.const if isinstance(b.const, (int, float)) and not isinstance(b.const, bool) else None
@@ -922,6 +934,12 @@ class Interp:
         ix = sl.elts if isinstance(sl, ast.Tuple) else [sl]
         line = getattr(e, "lineno", 0)
         self.ctx.reads.append((v, e.value.id if isinstance(e.value, ast.Name) else "", sl, line))
+        if v.kind == "sqshape" and len(ix) == 1 and const_int(ix[0]) is not None:
+            return Val("sqdim", shape=(), null=False, pair=U_)            # the side length n of the square matrix
+        if v.kind == "sq":
+            r = self.sq_index(v, ix)
+            if r is not None:
+                return r
         if v.kind == "theta" or v.kind == "vecparam":
             main, rest = ix[0], ix[1:]
             if all(is_newaxis(x) for x in rest):
@@ -972,6 +990,74 @@ class Interp:
         keeps = all(isinstance(i, ast.Slice) and i.step is None or is_newaxis(i) for i in ix)
         return Val(sign=v.sign, deps=v.deps | {("?", txt(e))}, null=False,
                    pair=v.pair if (v.pair == U_ or keeps) else UNK)
+
+    # ---- square matrices whose rows / columns may be in reversed order (cholesky_decompose_upper)
+    @staticmethod
+    def sq(base, rows, cols, line=0, like=None, coef=None, ridge=0.0, t=None):
+        """coef * (the square matrix `base`, transposed if t, with its rows / columns in reversed order) + ridge * I;
+        ridge None: an unknown multiple of the identity.  A base marked symmetric equals its transpose."""
+        v = Val("sq", of=base, block=(bool(rows), bool(cols)), null=False, line=line)
+        v.coef = (like.coef if like is not None else 1.0) if coef is None else coef
+        v.ridge = like.ridge if like is not None and ridge == 0.0 else ridge
+        v.t = (like.t if like is not None else False) if t is None else t
+        if getattr(base, "symm", False):
+            v.t = False
+        return v
+
+    def sq_index(self, v, ix):
+        """X[R], X[R, :], X[:, R], X[::-1, ::-1] with R = ::-1 or np.arange(n - 1, -1, -1): reversal of an axis"""
+        def kind(x):
+            if isinstance(x, ast.Slice):
+                if x.lower is None and x.upper is None and x.step is None:
+                    return "full"
+                return "rev-slice" if x.lower is None and x.upper is None and const_int(x.step) == -1 else None
+            if isinstance(x, (ast.Name, ast.Call, ast.Attribute, ast.Subscript)):
+                return "rev-array" if self.ev(x).kind == "revidx" else None
+            return None
+        ks = [kind(x) for x in ix]
+        if not (1 <= len(ks) <= 2) or any(k is None for k in ks):
+            return None
+        if len(ks) == 2 and ks[0] == ks[1] == "rev-array":
+            return None                                  # two index arrays are paired element-wise: the anti-diagonal
+        rows, cols = v.block
+        rows ^= ks[0] != "full"
+        if len(ks) == 2:
+            cols ^= ks[1] != "full"
+        return self.sq(v.of, rows, cols, v.line, like=v)
+
+    def sq_arith(self, op, a, b, line):
+        """sums and constant multiples of reordered copies of one square matrix, and multiples of the identity"""
+        def num(x):
+            return x.const if isinstance(x.const, (int, float)) and not isinstance(x.const, bool) else None
+        if isinstance(op, (ast.Add, ast.Sub)):
+            sg = 1.0 if isinstance(op, ast.Add) else -1.0
+            if a.kind == "sq" and b.kind == "sq" and a.of is b.of and a.block == b.block and a.t == b.t:
+                ridge = None if a.ridge is None or b.ridge is None else a.ridge + sg * b.ridge
+                return self.sq(a.of, a.block[0], a.block[1], line, coef=a.coef + sg * b.coef, ridge=ridge, t=a.t)
+            if a.kind == "sq" and b.kind == "sqeye":
+                ridge = None if a.ridge is None or b.coef is None else a.ridge + sg * b.coef
+                return self.sq(a.of, a.block[0], a.block[1], line, coef=a.coef, ridge=ridge, t=a.t)
+            if a.kind == "sqeye" and b.kind == "sq" and sg > 0:
+                return self.sq_arith(op, b, a, line)
+            return None
+        if isinstance(op, (ast.Mult, ast.Div)):
+            for m, c in ((a, b), (b, a)):
+                k = num(c)
+                if m.kind in ("sq", "sqeye") and c.kind == "scalar" and not (m is b and isinstance(op, ast.Div)):
+                    if k is None or (isinstance(op, ast.Div) and k == 0):
+                        if m.kind == "sqeye":
+                            r = Val("sqeye", null=False, pair=U_)
+                            r.coef = None
+                            return r
+                        return None
+                    f = k if isinstance(op, ast.Mult) else 1.0 / k
+                    if m.kind == "sqeye":
+                        r = Val("sqeye", null=False, pair=U_)
+                        r.coef = None if m.coef is None else m.coef * f
+                        return r
+                    return self.sq(m.of, m.block[0], m.block[1], line, coef=m.coef * f,
+                                   ridge=None if m.ridge is None else m.ridge * f, t=m.t)
+        return None
 
     def comprehension(self, e):
         """unrolled over static sequences; otherwise an unknown value that depends on everything it mentions"""
@@ -1087,6 +1173,10 @@ class Interp:
                 return Val("mat", grid=[[(fill[0], fill[1], line) for _ in range(shp[1])] for _ in range(shp[0])],
                            shape=shp, line=line, null=False)
             return Val(shape=shp, null=False, pair=upair)
+        if name in ("eye", "identity") and len(args) == 1 and not kwargs and args[0].kind == "sqdim":
+            r = Val("sqeye", null=False, pair=U_)
+            r.coef = 1.0
+            return r
         if name in ("eye", "identity") and e.args and self.shape_lit(e.args[0]) and len(e.args) == 1:
             n = self.shape_lit(e.args[0])[0]
             return Val("mat", grid=[[(P, Term(1.0), line) if r == c else (Z, Term(0.0), line) for c in range(n)]
@@ -1103,6 +1193,8 @@ class Interp:
         if name in ("asarray", "asanyarray", "atleast_1d", "atleast_2d", "atleast_3d", "squeeze", "copy",
                     "ascontiguousarray") and len(args) >= 1:
             v = args[0]
+            if v.kind == "sq":
+                return v
             if name in ("asarray", "copy", "asanyarray", "ascontiguousarray") and v.kind in ("mat", "seq"):
                 if v.kind == "seq":
                     return v
@@ -1110,6 +1202,24 @@ class Interp:
                 r.uninterp = v.uninterp
                 return r
             return Val("wrapped", sign=v.sign, deps=deps, of=[v], null=False, pair=v.pair)
+        if name == "arange" and len(args) == 3 and not kwargs and args[0].kind == "sqdim-1" and args[1].const == -1 \
+                and args[2].const == -1:
+            return Val("revidx", null=False, pair=U_)                    # n-1, n-2, ..., 0
+        if name in ("flip", "flipud", "fliplr") and args and args[0].kind == "sq" and len(args) <= 2:
+            ax = kwargs.get("axis", args[1] if len(args) > 1 else None)
+            axes = None
+            if name == "flipud" and ax is None:
+                axes = (0,)
+            elif name == "fliplr" and ax is None:
+                axes = (1,)
+            elif name == "flip":
+                c = NC if ax is None else ax.const
+                axes = (0, 1) if ax is None or c is None else (c,) if isinstance(c, int) and not isinstance(c, bool) else \
+                    c if isinstance(c, tuple) and all(isinstance(x, int) for x in c) else None
+            if axes is not None and all(-2 <= x < 2 for x in axes) and len({x % 2 for x in axes}) == len(axes):
+                rows, cols = args[0].block
+                return self.sq(args[0].of, rows ^ (0 in {x % 2 for x in axes}), cols ^ (1 in {x % 2 for x in axes}), args[0].line,
+                               like=args[0])
         if name == "exp" and len(args) == 1:
             return Val("scalar" if args[0].kind == "scalar" else "other", P,
                        sym_exp(args[0].sym) if args[0].sym is not None else None, shape=args[0].shape, deps=deps,
@@ -1161,6 +1271,8 @@ class Interp:
                 shp = self.shape_lit(e.args[0]) if len(e.args) == 1 else \
                     tuple(self.const_of(a) for a in e.args) if all(isinstance(self.const_of(a), int) for a in e.args) else None
                 return Val("reshaped", shape=shp, deps=recv.deps | deps, of=recv, null=False, sign=recv.sign)
+            if attr == "copy" and recv.kind == "sq":
+                return recv
             if attr == "copy":
                 if recv.kind == "mat":        # a distinct matrix object with the same entries
                     r = Val("mat", grid=[list(r) for r in recv.grid], shape=recv.shape, deps=recv.deps, null=False)
@@ -1242,6 +1354,8 @@ class Interp:
                 return self.mkseq(sorted(items, key=lambda i: i.const), tag="list")
             return None
         if fname == "len" and len(args) == 1:
+            if args[0].kind == "sq":
+                return Val("sqdim", shape=(), null=False, pair=U_)
             items = self.static_items(args[0])
             if items is not None:
                 return self.const_val(len(items))
@@ -1320,58 +1434,6 @@ def uniq(vals):
             seen.add(id(v))
             out.append(v)
     return out
-
-
-# ---------------------------------------------------------------------------------------------
-# reversal conjugation (cholesky_decompose_upper)
-
-def single_defs(fn):
-    d = {}
-    for n in ast.walk(fn):
-        if isinstance(n, ast.Assign) and len(n.targets) == 1 and isinstance(n.targets[0], ast.Name):
-            d.setdefault(n.targets[0].id, []).append(n.value)
-    return {k: v[0] for k, v in d.items() if len(v) == 1}
-
-
-def is_reversal_index(e, defs, np_names, of_text, depth=0):
-    """e indexes an axis in reverse order: ::-1, or a name bound to np.arange(n-1, -1, -1) with n the axis length"""
-    if isinstance(e, ast.Slice):
-        return e.lower is None and e.upper is None and const_int(e.step) == -1 if e.step is not None else False
-    if isinstance(e, ast.Name) and e.id in defs and depth < 4:
-        return is_reversal_index(defs[e.id], defs, np_names, of_text, depth + 1)
-    if isinstance(e, ast.Call) and dotted(e.func).split(".")[0] in np_names and dotted(e.func).split(".")[-1] == "arange" \
-            and len(e.args) == 3 and const_int(e.args[1]) == -1 and const_int(e.args[2]) == -1:
-        a0 = e.args[0]
-        if isinstance(a0, ast.BinOp) and isinstance(a0.op, ast.Sub) and const_int(a0.right) == 1:
-            n = a0.left
-            if isinstance(n, ast.Name) and n.id in defs:
-                n = defs[n.id]
-            t = txt(n)
-            return t in (f"{of_text}.shape[0]", f"{of_text}.shape[1]", f"len({of_text})", f"{of_text}.shape[-1]")
-    return False
-
-
-def reversal_conjugate_of(e, defs, np_names, size_of):
-    """returns the inner expression X when e is X with rows and columns both reversed, else None"""
-    # X[R][:, R]  /  X[R, :][:, R]
-    if isinstance(e, ast.Subscript) and isinstance(e.slice, ast.Tuple) and len(e.slice.elts) == 2:
-        a, b = e.slice.elts
-        full = lambda s: isinstance(s, ast.Slice) and s.lower is None and s.upper is None and s.step is None
-        if is_reversal_index(a, defs, np_names, size_of) and is_reversal_index(b, defs, np_names, size_of) \
-                and isinstance(a, ast.Slice) and isinstance(b, ast.Slice):
-            return e.value                                      # X[::-1, ::-1]
-        if full(a) and is_reversal_index(b, defs, np_names, size_of):
-            inner = e.value
-            if isinstance(inner, ast.Subscript):
-                s = inner.slice
-                if isinstance(s, ast.Tuple) and len(s.elts) == 2 and full(s.elts[1]):
-                    s = s.elts[0]
-                if not isinstance(s, ast.Tuple) and is_reversal_index(s, defs, np_names, size_of):
-                    return inner.value
-    if isinstance(e, ast.Call) and dotted(e.func).split(".")[0] in np_names and dotted(e.func).split(".")[-1] == "flip":
-        if len(e.args) == 1 and not e.keywords:
-            return e.args[0]
-    return None
 
 
 # ---------------------------------------------------------------------------------------------
@@ -1504,46 +1566,51 @@ def run(res, tier):
         mass_idx = None
 
     # ---------------- reversal conjugation in cholesky_decompose_upper, factor kind in the inverse map
+    # interpreted: the value flow J -> (rows and columns reversed) -> np.linalg.cholesky -> (reversed again) -> return is
+    # followed through locals, helpers and the equivalent reversal idioms (index arrays n-1..0, ::-1, np.flip)
     ch = mod.funcs[CHOL]
-    cdefs = single_defs(ch)
     cpar = params(ch)[0]
-    chol_calls = [c for c in ast.walk(ch) if isinstance(c, ast.Call) and dotted(c.func).split(".")[0] in mod.np
-                  and dotted(c.func).endswith("linalg.cholesky")]
-    rets = [r for r in ast.walk(ch) if isinstance(r, ast.Return)]
-    if len(chol_calls) != 1 or len(rets) != 1:
-        raise AnalysisError(f"{CHOL}: expected one np.linalg.cholesky call and one return")
+    jbase = Val("sqbase", block=cpar, null=False)
+    jbase.symm = True                      # assumption of the property: the pseudo-inertia is symmetric (J == J.T)
+    chol_seen = []
 
-    def resolve(e):
-        seen = 0
-        while isinstance(e, ast.Name) and e.id in cdefs and seen < 5:
-            e = cdefs[e.id]
-            seen += 1
-        return e
-    arg = resolve(chol_calls[0].args[0])
-    inner = reversal_conjugate_of(arg, cdefs, mod.np, cpar)
-    pre_ok = inner is not None and isinstance(resolve(inner), ast.Name) and resolve(inner).id == cpar
+    def chol_hook(it, e, a, k):
+        lbase = Val("sqbase", block="cholesky", null=False, line=e.lineno)
+        chol_seen.append((e.lineno, a[0] if a else Val(), lbase))
+        return Interp.sq(lbase, False, False, e.lineno)
+    cctx = make_ctx(mod, CHOL, np_hooks={"linalg.cholesky": chol_hook})
+    C = Interp(cctx, ch, {cpar: Interp.sq(jbase, False, False, ch.lineno)}).run()
+    if len(chol_seen) != 1 or C.ret is None:
+        raise AnalysisError(f"{CHOL}: expected one np.linalg.cholesky call and one returned value")
+    cline, carg, lbase = chol_seen[0]
+    if carg.kind != "sq" or carg.of is not jbase:
+        raise AnalysisError(f"{FILE}:{cline}: {CHOL}: the argument of np.linalg.cholesky is not recognised as `{cpar}` with rows / "
+                            f"columns reordered")
+    if carg.ridge is None:
+        raise AnalysisError(f"{FILE}:{cline}: {CHOL}: a multiple of the identity that is not a constant is added to the matrix "
+                            f"that is factorised")
+    pre_ok = carg.block == (True, True) and carg.coef == 1.0 and carg.ridge == 0.0
     if pre_ok:
-        res.ok("R-SIGN", f"{CHOL}:input-reversal", {"file": FILE, "line": chol_calls[0].lineno})
+        res.ok("R-SIGN", f"{CHOL}:input-reversal", {"file": FILE, "line": cline})
     else:
-        res.bad("R-SIGN", f"{CHOL}:input-reversal", FILE, chol_calls[0].lineno,
-                f"{CHOL}: np.linalg.cholesky is not applied to `{cpar}` with rows and columns both reversed")
-    rexp = resolve(rets[0].value)
-    inner = reversal_conjugate_of(rexp, cdefs, mod.np, cpar)
-    lname = None
-    for k, v in cdefs.items():
-        if v is chol_calls[0]:
-            lname = k
-    post_src = resolve(inner) if inner is not None else None
-    post_ok = inner is not None and (post_src is chol_calls[0] or (isinstance(inner, ast.Name) and inner.id == lname))
-    if not post_ok and lname is not None:
-        # reversal index sized by the factor itself
-        inner = reversal_conjugate_of(rexp, cdefs, mod.np, lname)
-        post_ok = inner is not None and isinstance(inner, ast.Name) and inner.id == lname
+        res.bad("R-SIGN", f"{CHOL}:input-reversal", FILE, cline,
+                f"{CHOL}: np.linalg.cholesky is not applied to `{cpar}` with rows and columns both reversed "
+                f"(rows reversed: {carg.block[0]}, columns reversed: {carg.block[1]}"
+                + (f"; it is applied to {carg.coef:g} * {cpar} + {carg.ridge:g} * I, so the factor is not the factor of {cpar} "
+                   f"and {INV} does not invert {FWD}" if (carg.coef, carg.ridge) != (1.0, 0.0) else "") + ")")
+    rline = getattr(C.ret_node, "lineno", ch.lineno)
+    if C.ret.kind != "sq" or C.ret.of is not lbase:
+        raise AnalysisError(f"{FILE}:{rline}: {CHOL}: the returned value is not recognised as the Cholesky factor with rows / "
+                            f"columns reordered")
+    post_ok = C.ret.block == (True, True) and not C.ret.t and C.ret.coef == 1.0 and C.ret.ridge == 0.0
     if post_ok:
-        res.ok("R-SIGN", f"{CHOL}:output-reversal", {"file": FILE, "line": rets[0].lineno})
+        res.ok("R-SIGN", f"{CHOL}:output-reversal", {"file": FILE, "line": rline})
     else:
-        res.bad("R-SIGN", f"{CHOL}:output-reversal", FILE, rets[0].lineno,
-                f"{CHOL}: the lower Cholesky factor is not returned with rows and columns both reversed (result is not upper triangular with J = U U^T)")
+        res.bad("R-SIGN", f"{CHOL}:output-reversal", FILE, rline,
+                f"{CHOL}: the lower Cholesky factor is not returned with rows and columns both reversed (rows reversed: "
+                f"{C.ret.block[0]}, columns reversed: {C.ret.block[1]}, transposed: {C.ret.t}, scaled by {C.ret.coef:g}, plus "
+                f"{C.ret.ridge if C.ret.ridge is None else format(C.ret.ridge, 'g')} * I; the result is not upper triangular with "
+                f"J = U U^T)")
 
     inv = mod.funcs[INV]
     ip = params(inv)
@@ -1568,6 +1635,9 @@ def run(res, tier):
     inv_kind = ("upper", "UUT") if fk.block == "U" else ("lower", "UUT")
     if side is not None and (side, G.order) == inv_kind and (fk.block != "U" or (pre_ok and post_ok)):
         res.ok("R-SIGN", construct, {"file": FILE, "line": fk.line, "forward": [side, G.order], "inverse": list(inv_kind)})
+    elif side is not None and (side, G.order) == inv_kind:
+        # the triangles and orders agree; that the helper really returns the upper factor is what failed: reported above
+        res.seen("R-SIGN", construct)
     else:
         res.bad("R-SIGN", construct, FILE, fk.line,
                 f"{INV} factors J as {inv_kind} but {FWD} builds a {side or 'non-triangular'} factor with order {G.order}: the inverse map does not recover U")
@@ -2425,6 +2495,22 @@ _S_T_ROWS = """    s_bounds = theta_i_0[4 : 4 + 3, np.newaxis] + np.atleast_2d(s
 _T_ROWS = """    t_bounds = theta_i_0[7:10, np.newaxis] + np.atleast_2d(ipos_bound_off)
 """
 
+_CHOL_BODY = """  n = J.shape[0]
+  indices = np.arange(n - 1, -1, -1)
+  J_reversed = J[indices][:, indices]
+  L_prime = np.linalg.cholesky(J_reversed)
+  return L_prime[indices][:, indices]
+"""
+_CHOL_HELPER_BODY = """  L_prime = np.linalg.cholesky(_flip_rows_and_cols(J))
+  return _flip_rows_and_cols(L_prime)
+"""
+_FLIP_HELPER = """def _flip_rows_and_cols(A):
+  indices = np.arange(A.shape[0] - 1, -1, -1)
+  return A[indices][:, indices]
+
+
+"""
+
 MUTANTS = [
     # ---- R-SIGN
     {"id": "fill-wrong-index-pair", "expect": ("R-SIGN", "pi_from_theta:U[1,0]"),
@@ -2437,6 +2523,17 @@ MUTANTS = [
      "edits": [(FILE, "  J = U @ U.T\n", "  J = U.T @ U\n")]},
     {"id": "table-fill-wrong-pair", "expect": ("R-SIGN", "pi_from_theta:U[2,1]"),
      "edits": [(FILE, _FILL, _FILL_TABLE.replace("(1, 2): s23", "(2, 1): s23"))]},
+    {"id": "cholesky-input-rows-only", "expect": ("R-SIGN", "cholesky_decompose_upper:input-reversal"),
+     "edits": [(FILE, "  J_reversed = J[indices][:, indices]\n", "  J_reversed = J[indices]\n")]},
+    {"id": "cholesky-output-not-reversed", "expect": ("R-SIGN", "cholesky_decompose_upper:output-reversal"),
+     "edits": [(FILE, "  return L_prime[indices][:, indices]\n", "  return L_prime\n")]},
+    {"id": "cholesky-ridge-added", "expect": ("R-SIGN", "cholesky_decompose_upper:input-reversal"),
+     "edits": [(FILE, "  L_prime = np.linalg.cholesky(J_reversed)\n", "  J_reversed += 1e-12 * np.eye(n)\n  L_prime = np.linalg.cholesky(J_reversed)\n")]},
+    {"id": "cholesky-factor-transposed", "expect": ("R-SIGN", "cholesky_decompose_upper:output-reversal"),
+     "edits": [(FILE, "  return L_prime[indices][:, indices]\n", "  return L_prime.T[indices][:, indices]\n")]},
+    {"id": "cholesky-flip-helper-rows-only", "expect": ("R-SIGN", "cholesky_decompose_upper:output-reversal"),
+     "edits": [(FILE, _CHOL_BODY, _CHOL_HELPER_BODY),
+               (FILE, "def cholesky_decompose_upper(", _FLIP_HELPER.replace("A[indices][:, indices]", "A[indices]") + "def cholesky_decompose_upper(")]},
     # ---- R-TABLE
     {"id": "assembly-wrong-block", "expect": ("R-TABLE", "pi[1:4]->pseudoinertia_from_pi"),
      "edits": [(FILE, "  J[3, :3] = h\n", "  J[2, :3] = h\n")]},
@@ -2490,6 +2587,10 @@ MUTANTS = [
      "edits": [(FILE, "  pi = pi_from_theta(theta)\n\n  body = _infer_inertial(spec, body_name)\n",
                 "  pi = pi_from_theta(theta)\n\n  body = _get_obj_or_raise(spec, \"body\", body_name)\n  body.explicitinertial = True\n")]},
     # ---- controls: behaviour-preserving shapes
+    {"id": "control-cholesky-flip-helper", "expect": None,
+     "edits": [(FILE, _CHOL_BODY, _CHOL_HELPER_BODY), (FILE, "def cholesky_decompose_upper(", _FLIP_HELPER + "def cholesky_decompose_upper(")]},
+    {"id": "control-cholesky-slice-and-flip", "expect": None,
+     "edits": [(FILE, _CHOL_BODY, "  L_prime = np.linalg.cholesky(J[::-1, ::-1])\n  return np.flip(L_prime)\n")]},
     {"id": "control-inertiafromgeom-in-helper", "expect": None,
      "edits": [(FILE, "  spec.compiler.inertiafromgeom = 2\n", "  _explicit_inertial_wins(spec)\n"),
                (FILE, "def _infer_inertial(", "def _explicit_inertial_wins(spec):\n  compiler = spec.compiler\n"
